@@ -964,6 +964,9 @@ Proof. intros H. unfold optkv, vals_of. destruct v; cbn; [reflexivity|]. now rew
 Lemma vals_of_const (X : bytes) (l : kvs) c : beq c X = false -> vals_of (map (fun kv => (X, snd kv)) l) c = [].
 Proof. intros H. unfold vals_of. induction l; cbn; [reflexivity|]. now rewrite beq_sym, H. Qed.
 
+Lemma vals_of_single (X v c : bytes) : beq c X = false -> vals_of [(X, v)] c = [].
+Proof. intros H. unfold vals_of. cbn [filter fst]. now rewrite beq_sym, H. Qed.
+
 Theorem resp_all_ordinary nonorm nodefct ops c : ops_ok rspecials nonorm ops -> ordinary_r c = true ->
   let r := fold_left rstep29 ops (rinit nonorm nodefct) in
   vals_of (RAll r) c = spec_all_vals HResp nodefct (srun HResp nonorm (map sop_of ops)) c.
@@ -975,12 +978,11 @@ Proof.
   unfold spec_all_vals, spec_peek_all. rewrite Hcls, <- Hv.
   unfold RAll. cbv zeta. rewrite !vals_of_app.
   rewrite !vals_of_optkv, vals_of_const by assumption. cbn [app].
-  assert (Ht : vals_of (match htrailer (rh r) with [] => [] | tr => [(strTrailer, appendTrailerBytes [] tr strCommaSpace)] end) c = []).
-  { destruct (htrailer (rh r)); [reflexivity|]. unfold vals_of. cbn [filter fst]. now rewrite beq_sym, E6. }
-  assert (Hcl : vals_of (if hclose (rh r) then [(strConnection, strClose)] else []) c = []).
-  { destruct (hclose (rh r)); [|reflexivity]. unfold vals_of. cbn [filter fst]. now rewrite beq_sym, E2. }
-  rewrite Ht, Hcl, app_nil_r. cbn [app]. unfold vals_of. rewrite <- peekAll_vals.
-  unfold rvals. now rewrite E, E1, E3, E2, E0, E4, E6.
+  assert (Hnil : vals_of [] c = []) by reflexivity.
+  destruct (htrailer (rh r)) as [|t0 tr]; destruct (hclose (rh r));
+    rewrite ?(vals_of_single _ _ _ E6), ?(vals_of_single _ _ _ E2), ?Hnil, ?app_nil_r; cbn [app];
+    unfold vals_of; rewrite <- peekAll_vals.
+  all: unfold rvals; now rewrite E, E1, E3, E2, E0, E4, E6.
 Qed.
 
 Theorem req_all_ordinary nonorm nodefct evs c : qev_ok nonorm evs -> ordinary_q c = true ->
@@ -995,12 +997,9 @@ Proof.
   destruct (collect_fields q Hnc) as (H1 & _).
   unfold QAll. cbv zeta. cbn [snd]. rewrite H1. rewrite !vals_of_app.
   rewrite !vals_of_optkv by assumption. cbn [app].
-  assert (Ht : vals_of (match htrailer (qh q) with [] => [] | tr => [(strTrailer, appendTrailerBytes [] tr strCommaSpace)] end) c = []).
-  { destruct (htrailer (qh q)); [reflexivity|]. unfold vals_of. cbn [filter fst]. now rewrite beq_sym, E4. }
-  assert (Hck : vals_of (match hcookies (qh q) with [] => [] | cs => [(strCookie, appendRequestCookieBytes [] cs)] end) c = []).
-  { destruct (hcookies (qh q)); [reflexivity|]. unfold vals_of. cbn [filter fst]. now rewrite beq_sym, E2. }
-  assert (Hcl : vals_of (if hclose (qh q) then [(strConnection, strClose)] else []) c = []).
-  { destruct (hclose (qh q)); [|reflexivity]. unfold vals_of. cbn [filter fst]. now rewrite beq_sym, E1. }
-  rewrite Ht, Hck, Hcl, app_nil_r. cbn [app]. unfold vals_of. rewrite <- peekAll_vals.
-  unfold qvals. now rewrite E5, E, E6, E1, E0, E2, E4.
+  assert (Hnil : vals_of [] c = []) by reflexivity.
+  destruct (htrailer (qh q)) as [|t0 tr]; destruct (hcookies (qh q)) as [|ck cs]; destruct (hclose (qh q));
+    rewrite ?(vals_of_single _ _ _ E4), ?(vals_of_single _ _ _ E2), ?(vals_of_single _ _ _ E1), ?Hnil, ?app_nil_r; cbn [app];
+    unfold vals_of; rewrite <- peekAll_vals.
+  all: unfold qvals; now rewrite E5, E, E6, E1, E0, E2, E4.
 Qed.
